@@ -107,3 +107,49 @@ func verifC10FileDiscipline() {
 	verifAssert("file/no-go-level-shared-state", verifAnd(verifProtected() == 0, verifUnprotected() == 0))
 	verifCover("c10/file")
 }
+
+// verifC10MemConcurrent: three operations on one memory disk run concurrently under the executor's
+// scheduler (every interleaving at synchronisation points: lock operations, atomic operations,
+// Pool.Get/Put) with the happens-before race check on every memory cell. Two writers and a reader
+// on the same block: the reader sees the initial, the first or the second value in full; the final
+// content is one of the two written values; no pair of conflicting plain accesses is unordered.
+// Unlike the lock-discipline VCs this does not presuppose that the implementation uses a lock.
+func verifC10MemConcurrent() {
+	d := NewMemDisk(2)
+	init := verifNondetBytes("init", int(BlockSize))
+	v1 := verifNondetBytes("v1", int(BlockSize))
+	v2 := verifNondetBytes("v2", int(BlockSize))
+	a2 := uint64(verifChoose(2)) // the second writer targets the same or the other block
+	d.Write(0, init)
+	d.Write(0, verifClone(init)) // a replaced block exists before the concurrent phase
+	var r Block
+	var wg sync.WaitGroup
+	wg.Add(2)
+	verifRaceDetect(true)
+	go func() {
+		d.Write(0, v1)
+		wg.Done()
+	}()
+	go func() {
+		d.Write(a2, v2)
+		wg.Done()
+	}()
+	r = d.Read(0)
+	wg.Wait()
+	verifRaceDetect(false)
+	verifAssert("conc/no-data-race", verifRaces() == 0)
+	okR := verifOr(verifBytesEq(r, init), verifBytesEq(r, v1))
+	if a2 == 0 {
+		okR = verifOr(okR, verifBytesEq(r, v2))
+	}
+	verifAssert("conc/read-returns-a-written-value", okR)
+	f := d.Read(0)
+	okF := verifBytesEq(f, v1)
+	if a2 == 0 {
+		okF = verifOr(okF, verifBytesEq(f, v2))
+	} else {
+		verifAssert("conc/other-block", verifBytesEq(d.Read(1), v2))
+	}
+	verifAssert("conc/final-is-a-written-value", okF)
+	verifCover("c10/conc")
+}
